@@ -129,10 +129,9 @@ theorem step_untouched {c : Cfg} (h : CInv c) (x : Path)
   | tick => exact ⟨rfl, hx⟩
   | gcList cands =>
       simp only [step]
-      cases c.gc with
-      | cand p s r => exact ⟨rfl, hx⟩
-      | idle => simp only []; split <;> exact ⟨rfl, hx⟩
-      | sweeping cs => simp only []; split <;> exact ⟨rfl, hx⟩
+      split
+      · cases c.gc <;> exact ⟨rfl, hx⟩
+      · exact ⟨rfl, hx⟩
   | gcStep =>
       simp only [step]
       cases hgc : c.gc with
